@@ -103,10 +103,83 @@ theorem parseRule_ruleToks (cfg : Cfg) (name cat : String) (ckb nkb : Nat) (t : 
   have hc := consume_ofStream (t := kw "CONDITIONS" .conditions) (k := ppOr t ++ k)
     (c := tInt nkb :: kw "NEIGHBOURHOOD" .neighbourhood :: tInt ckb :: kw "CUTOFF" .cutoff ::
       tId cat :: kw "CATEGORY" .category :: tId name :: kw "RULE" .rule :: cons) (r := rules) (exp := .conditions) rfl
-  unfold parseRule
+  unfold parseRule parseRuleWith
   generalize hb : (ofStream (ruleToks name cat ckb nkb t ++ k) cons rules).budget = fuel at hpp hext hf
   subst hf
   simp only [ruleToks, List.cons_append, List.nil_append, List.append_assoc] at hext hend' ⊢
+  simp only [bind, Except.bind, parseHead_ofStream cfg name cat _ _ cons rules hcat,
+    parseMeta_ofStream f (kw "CUTOFF" .cutoff) _ _ rules rfl, parseDistances_ofStream, hc, hpp, hgroup]
+  simp only [List.reverse_cons, List.reverse_append, List.append_assoc, List.cons_append, List.nil_append,
+    List.reverse_nil, List.reverse_reverse] at hext hend' ⊢
+  simp [hext, hend', hpos, extendersNegative, bind, Except.bind, pure, Except.pure]
+
+end ASV.Parser
+
+namespace ASV.Parser
+open ASV ASV.Rules ASV.Grammar
+
+/-- the mandatory sections before the conditions -/
+def hdrToks (name cat : String) (ckb nkb : Nat) : List Tok :=
+  [kw "RULE" .rule, tId name, kw "CATEGORY" .category, tId cat, kw "CUTOFF" .cutoff, tInt ckb,
+   kw "NEIGHBOURHOOD" .neighbourhood, tInt nkb, kw "CONDITIONS" .conditions]
+
+/-- `parseRule_ruleToks` with the conditions given by their keys -/
+theorem parseRule_keys (cfg : Cfg) (name cat : String) (ckb nkb : Nat) (Lr : List Cond) (w k cons : List Tok)
+    (rules : List Rule) (hcat : cfg.cats.contains cat = true) (hne : Lr ≠ []) (hs : shapeOks true Lr = true)
+    (hr : noRepeats Lr = true) (hd : hasDupStr (printConds Lr) = false) (hw : w.map Tok.key = flatJoin .orOp Lr)
+    (hpos : positive (.group false Lr) = true)
+    (hk : headType k = none ∨ headType k = some .rule ∨ headType k = some .define) :
+    parseRule cfg (ofStream (hdrToks name cat ckb nkb ++ w ++ k) cons rules) =
+      .ok ({ name := name, category := cat, cutoff := ckb * 1000, neighbourhood := nkb * 1000,
+             conditions := .group false Lr },
+           ofStream k ((hdrToks name cat ckb nkb ++ w).reverse ++ cons) rules) := by
+  have hnb : NotBinop k := by
+    rcases hk with h | h | h <;> simp [NotBinop, h]
+  have hend : ∀ c r, endCheck false (ofStream k c r) = .ok () := by
+    intro c r
+    cases k with
+    | nil => simp [endCheck, ofStream]
+    | cons x xs =>
+      simp only [headType_cons] at hk
+      rcases hk with h | h | h
+      · cases h
+      · simp at h; simp [endCheck, ofStream, h]
+      · simp at h; simp [endCheck, ofStream, h]
+  have hend' : ruleEnd (ofStream k ((hdrToks name cat ckb nkb ++ w).reverse ++ cons) rules) = .ok () := by
+    cases k with
+    | nil => simp [ruleEnd, ofStream, pure, Except.pure]
+    | cons x xs =>
+      simp only [headType_cons] at hk
+      rcases hk with h | h | h
+      · cases h
+      · simp at h; simp [ruleEnd, ofStream, h, pure, Except.pure]
+      · simp at h; simp [ruleEnd, ofStream, h, pure, Except.pure]
+  have hext : parseExtenders ((ofStream (hdrToks name cat ckb nkb ++ w ++ k) cons rules).budget)
+      (ofStream k ((hdrToks name cat ckb nkb ++ w).reverse ++ cons) rules) =
+      .ok (none, ofStream k ((hdrToks name cat ckb nkb ++ w).reverse ++ cons) rules) := by
+    have : (ofStream k ((hdrToks name cat ckb nkb ++ w).reverse ++ cons) rules).curIs .extenders = false := by
+      rw [curIs_ofStream]
+      rcases hk with h | h | h <;> simp [h]
+    simp only [parseExtenders, this, Bool.false_eq_true, ↓reduceIte]
+    rfl
+  have hgroup : mkGroup false Lr = .ok (.group false Lr) := by
+    simp [mkGroup, checkOperands, hd, bind, Except.bind, pure, Except.pure]
+  have hfuel : 3 * w.length + 2 ≤ (ofStream (hdrToks name cat ckb nkb ++ w ++ k) cons rules).budget := by
+    rw [budget_ofStream]
+    simp [hdrToks, ofStream]
+    omega
+  obtain ⟨f, hf⟩ : ∃ f, (ofStream (hdrToks name cat ckb nkb ++ w ++ k) cons rules).budget = f + 1 := by
+    rw [budget_ofStream]; exact ⟨_, rfl⟩
+  have hpp := parseConditions_complete true false Lr _ w k
+    (kw "CONDITIONS" .conditions :: tInt nkb :: kw "NEIGHBOURHOOD" .neighbourhood :: tInt ckb :: kw "CUTOFF" .cutoff ::
+      tId cat :: kw "CATEGORY" .category :: tId name :: kw "RULE" .rule :: cons) rules hne hs hr hw hnb hend hfuel
+  have hc := consume_ofStream (t := kw "CONDITIONS" .conditions) (k := w ++ k)
+    (c := tInt nkb :: kw "NEIGHBOURHOOD" .neighbourhood :: tInt ckb :: kw "CUTOFF" .cutoff ::
+      tId cat :: kw "CATEGORY" .category :: tId name :: kw "RULE" .rule :: cons) (r := rules) (exp := .conditions) rfl
+  unfold parseRule parseRuleWith
+  generalize hb : (ofStream (hdrToks name cat ckb nkb ++ w ++ k) cons rules).budget = fuel at hpp hext hf
+  subst hf
+  simp only [hdrToks, List.cons_append, List.nil_append, List.append_assoc] at hext hend' ⊢
   simp only [bind, Except.bind, parseHead_ofStream cfg name cat _ _ cons rules hcat,
     parseMeta_ofStream f (kw "CUTOFF" .cutoff) _ _ rules rfl, parseDistances_ofStream, hc, hpp, hgroup]
   simp only [List.reverse_cons, List.reverse_append, List.append_assoc, List.cons_append, List.nil_append,
